@@ -22,6 +22,7 @@ import (
 	"strings"
 	"sync"
 	"testing"
+	"time"
 
 	"rsc.io/binaryregexp"
 )
@@ -122,6 +123,8 @@ func vWords(sigma []string, l int) []string {
 	}
 	return res
 }
+
+const vWatchdog = 10 * time.Second
 
 func vLen(v uint) int64 {
 	if v == math.MaxUint {
@@ -243,15 +246,43 @@ func vOne(id int, r vRow, wordCache *sync.Map) (o vOut, mach []string) {
 	if strings.Join(got, ",") != strings.Join(want, ",") || len(got) != len(want) {
 		mach = append(mach, fmt.Sprintf("row %d %q: engine accepts %v, specification Lang = %v", id, re, got, want))
 	}
-	// 2. the real analysis
-	al, err := AcceptedLength(re)
-	if err != nil {
-		o.ErrLen = err.Error()
+	// 2. the real analysis (under a watchdog: the suffix walk has no memoisation and can take exponential time)
+	type lenRes struct {
+		al  AcceptedLengths
+		err error
 	}
-	o.Min, o.Max = vLen(al.MinLength), vLen(al.MaxLength)
-	suf, err := ConstantSuffix(re)
-	if err != nil {
-		o.ErrSuf = err.Error()
+	lc := make(chan lenRes, 1)
+	go func() {
+		al, err := AcceptedLength(re)
+		lc <- lenRes{al, err}
+	}()
+	select {
+	case lr := <-lc:
+		if lr.err != nil {
+			o.ErrLen = lr.err.Error()
+		}
+		o.Min, o.Max = vLen(lr.al.MinLength), vLen(lr.al.MaxLength)
+	case <-time.After(vWatchdog):
+		o.ErrLen = "watchdog"
+	}
+	type sufRes struct {
+		suf []byte
+		err error
+	}
+	scn := make(chan sufRes, 1)
+	go func() {
+		suf, err := ConstantSuffix(re)
+		scn <- sufRes{suf, err}
+	}()
+	suf := []byte(nil)
+	select {
+	case sr := <-scn:
+		if sr.err != nil {
+			o.ErrSuf = sr.err.Error()
+		}
+		suf = sr.suf
+	case <-time.After(vWatchdog):
+		o.ErrSuf = "watchdog"
 	}
 	for _, b := range suf {
 		o.Suffix = append(o.Suffix, string(rune(b)))
